@@ -111,12 +111,23 @@ func HarnessC18f() {
 			workers = 6
 		}
 		errs := make([]error, workers)
+		// a writer whose Store has returned success can read the node back at once, whatever the others are doing
+		ownOK := make([]bool, workers)
 		var wg sync.WaitGroup
 		wg.Add(workers)
 		verifSched(true)
 		for w := 0; w < workers; w++ {
 			w := w
-			go func() { defer wg.Done(); errs[w] = NewPersistForPath(dir).Store(vctx, name, b) }()
+			go func() {
+				defer wg.Done()
+				q := NewPersistForPath(dir)
+				errs[w] = q.Store(vctx, name, b)
+				ownOK[w] = true
+				if errs[w] == nil {
+					got, lerr := q.Load(vctx, name)
+					ownOK[w] = lerr == nil && bytesEq(got, b)
+				}
+			}()
 		}
 		wg.Wait()
 		verifSched(false)
@@ -125,6 +136,11 @@ func HarnessC18f() {
 			allOK = allOK && e == nil
 		}
 		verifAssert("C18.file.concurrent-store.err", allOK)
+		allOwn := true
+		for _, o := range ownOK {
+			allOwn = allOwn && o
+		}
+		verifAssert("C18.file.concurrent-store.success-is-readable-at-once", allOwn)
 		got, err := p.Load(vctx, name)
 		verifAssert("C18.file.concurrent-store.roundtrip", err == nil && bytesEq(got, b))
 	case 4: // the write is cut short by an I/O error: either the error is returned or the node is fully there
